@@ -755,7 +755,11 @@ func (ex *Exec) applyContract(fr *Frame, st *State, ct *Contract, fn *ssa.Functi
 	pre := st.clone()
 	// havoc the frame
 	touched := false
-	for _, m := range ct.Modifies {
+	var hlog []havocRec
+	savedLog := ex.havocLog
+	ex.havocLog = &hlog
+	defer func() { ex.havocLog = savedLog }()
+	for _, m := range ex.P.expandModsets(ct.Modifies, 0) {
 		env := mkEnv(pre, nil, true)
 		ex.havocSpecLoc(env, st, m.Expr)
 		touched = true
@@ -781,7 +785,33 @@ func (ex *Exec) applyContract(fr *Frame, st *State, ct *Contract, fn *ssa.Functi
 	for _, en := range ct.Ensures {
 		env := mkEnv(st, pre, true)
 		ex.bindResults(env, sig, res)
-		st.assume(env.evalBool(en.Expr))
+		t := env.evalBool(en.Expr)
+		st.assume(t)
+		// a postcondition that fixes the new value of a havocked scalar location by an equation:
+		// store that value itself (keeps later index arithmetic syntactically transparent)
+		for _, cj := range conjuncts(t) {
+			if cj.Op != "=" {
+				continue
+			}
+			for i := range hlog {
+				h := hlog[i]
+				var other *Term
+				if cj.Args[0] == h.v.T {
+					other = cj.Args[1]
+				} else if cj.Args[1] == h.v.T {
+					other = cj.Args[0]
+				}
+				if other == nil || other.Sort != h.v.T.Sort || termContains(other, h.v.T) {
+					continue
+				}
+				cur, ok := st.load(h.l).(Sc)
+				if ok && cur.T == h.v.T {
+					saved := st.Writes
+					st.store(h.l, Sc{other, h.v.Ty})
+					st.Writes = saved // the write was logged when the location was havocked
+				}
+			}
+		}
 	}
 	return res
 }
@@ -945,6 +975,36 @@ func (ex *Exec) havocSpecLoc(env *SpecEnv, st *State, e ast.Expr) {
 	nv := freshValue("mod", l.Ty)
 	st.store(l, nv)
 	st.assume(st.wf(nv))
+	if sc, ok := nv.(Sc); ok && ex.havocLog != nil {
+		*ex.havocLog = append(*ex.havocLog, havocRec{l, sc})
+	}
+}
+
+// havocRec: a scalar location havocked on behalf of a callee and the fresh value put there.
+type havocRec struct {
+	l Loc
+	v Sc
+}
+
+func termContains(t, x *Term) bool {
+	seen := map[int]bool{}
+	var walk func(t *Term) bool
+	walk = func(t *Term) bool {
+		if t == x {
+			return true
+		}
+		if seen[t.id] {
+			return false
+		}
+		seen[t.id] = true
+		for _, a := range t.Args {
+			if walk(a) {
+				return true
+			}
+		}
+		return false
+	}
+	return walk(t)
 }
 
 func (ex *Exec) havocMap(st *State, mt *types.Map, r *Term) {
